@@ -285,6 +285,42 @@ def run(chk):
                 continue
             emit(full, build.expand_mul(Expr(res2.sympy, **res2.assumptions)),
                  f"itmd:factor:special:{label}", what, tsyms)
+    # (d') reduce_expr on terms with an explicit orbital-energy fraction whose
+    #      numerator cancels a denominator bracket only partially, with unit
+    #      and non-unit coefficients (the left-over fraction keeps the
+    #      prefactor accumulated so far)
+    def en(s_):
+        return NonSymmetricTensor(tn.orb_energy, (s_,))
+    Vik = AntiSymmetricTensor(tn.eri, (i, k), (a, c), 1)
+    d1, d2 = den((i,), (a,)), den((i, k), (a, c))
+    fracs = [
+        ("complete", Vik * (2 * en(i) - 2 * en(a) + en(k) - en(c)) / (d1 * d2),
+         [i, k, a, c]),
+        ("partial unit", Vik * (en(i) - en(a) + en(k)) / (d1 * d2),
+         [i, k, a, c]),
+        ("partial mixed", Vik * (2 * en(i) - 2 * en(a) + en(k)) / (d1 * d2),
+         [i, k, a, c]),
+        ("partial mixed 3", Vik * (3 * en(i) - 3 * en(a) - en(c)) / (d1 * d2),
+         [i, k, a, c]),
+        ("partial mixed t2_1", t21.tensor("ikac").sympy *
+         AntiSymmetricTensor(tn.eri, (j, k), (b, c), 1) *
+         (3 * en(i) - 3 * en(a) + en(k)) / d1, [i, j, a, b]),
+    ]
+    for label, sym_expr, tsyms in (fracs[1:4] if quick else fracs):
+        base = Expr(sym_expr, real=True, target_idx=tsyms)
+        base_copy = build.expand_mul(Expr(base.sympy, **base.assumptions))
+        res, exc = guarded(reduce_expr, Expr(base.sympy, **base.assumptions))
+        chk.count("reduce_calls")
+        what = f"reduce_expr({sym_expr})"
+        if exc:
+            if exc.get("timeout") or exc["type"] == "NotImplementedError":
+                chk.count("refused_or_timeout")
+            else:
+                chk.report_direct("itmd:reduce:exception", f"{what} raised "
+                                  f"{exc['type']}: {exc['msg']}", exc)
+            continue
+        emit(base_copy, build.expand_mul(Expr(res.sympy, **res.assumptions)),
+             f"itmd:reduce:fraction:{label}", what, tsyms)
     # (e) long intermediates with mixed prefactors: the fully expanded form of
     #     t2_2 (6 terms) x remainder with the prefactor of ONE term changed,
     #     and with the remainder's own summation index named differently
